@@ -21,15 +21,34 @@ type SrvReqOps interface {
 	Wstat(*SrvReq)
 }
 
+// Packs an Rerror into the reply buffer. If the text does not fit (the
+// client negotiated a tiny msize), as much of it as fits is sent.
+func (req *SrvReq) packRerror(ename string, ecode uint32) {
+	if PackRerror(req.Rc, ename, ecode, req.Conn.Dotu) == nil {
+		return
+	}
+
+	room := len(req.Rc.Buf) - (4 + 1 + 2 + 2 + 4) /* size[4] id[1] tag[2] ename[s] ecode[4] */
+	if room < 0 {
+		room = 0
+	}
+
+	if len(ename) > room {
+		ename = ename[0:room]
+	}
+
+	_ = PackRerror(req.Rc, ename, ecode, req.Conn.Dotu)
+}
+
 // Respond to the request with Rerror message
 func (req *SrvReq) RespondError(err interface{}) {
 	switch e := err.(type) {
 	case *Error:
-		_ = PackRerror(req.Rc, e.Error(), uint32(e.Errornum), req.Conn.Dotu)
+		req.packRerror(e.Error(), uint32(e.Errornum))
 	case error:
-		_ = PackRerror(req.Rc, e.Error(), uint32(EIO), req.Conn.Dotu)
+		req.packRerror(e.Error(), uint32(EIO))
 	default:
-		_ = PackRerror(req.Rc, fmt.Sprintf("%v", e), uint32(EIO), req.Conn.Dotu)
+		req.packRerror(fmt.Sprintf("%v", e), uint32(EIO))
 	}
 
 	req.Respond()
